@@ -38,6 +38,8 @@ func init() {
 		"(*sync.Once).Do":            mOnceDo,
 		"errors.Is":                  mErrorsIs,
 		"sort.Slice":                 mSortSlice,
+		"(time.Duration).Milliseconds": mUninterpInt("time.Duration.Milliseconds"),
+		"(time.Duration).Seconds":      mUninterpInt("time.Duration.Seconds"),
 		"context.WithTimeout":        mWithTimeout,
 		"context.WithCancel":         mWithCancel,
 		"context.Background":         mBackground,
@@ -328,4 +330,12 @@ func (x *Exec) runClosurePure(f *frame, cl *Closure, args []Val) Val {
 		panic(unsupported("closure does not return"))
 	}
 	return r.val
+}
+
+func mUninterpInt(name string) externModel {
+	return func(f *frame, args []Val, c *ssa.CallCommon, pos string) Val {
+		f.trust(name + " is a pure (uninterpreted) function of its argument")
+		fn := f.x.vc.Fun("fn:"+name, []string{"Int"}, f.x.vc.sortOf(c.Signature().Results().At(0).Type()))
+		return Val{T: c.Signature().Results().At(0).Type(), S: app(fn, args[0].S)}
+	}
 }
